@@ -145,7 +145,7 @@ TEXT = {
         "text": "Every history to depth 5 (6) over {P(dt,v): dt in {0,1ns,0.5s,3s}} + {N,E1} x windows {1ns,0.5s,2s,1h} and "
                 "smoothing {0,.25,.5,1}, plus 24/2 (64/3) long histories: no update panics; moving average equals the "
                 "time-weighted mean of the window (weights >=0, sum = window, asserted in the reference); EWMA equals "
-                "prev*(1-L)+new*L; convexity; first sample; absent ignored; variants agree. Plus periodic histories (every primitive word of up to 2-4 symbols (per engine, see evidence bounds) over the core alphabet repeated to 16-64 events, with at most one deviation) and long runs on both sides of 2^8 and 2^9 events. Plus dense sweeps of the continuous parameters over a ratio grid (2^(1/16) steps, thorough 2^(1/32), plus 1 +- 2^-k). Plus twin / bystander runs: a second live object of the same kind used alternately must not change anything.",
+                "prev*(1-L)+new*L; convexity; first sample; absent ignored; variants agree. Plus periodic histories (every primitive word of up to 2-4 symbols (per engine, see evidence bounds) over the core alphabet repeated to 16-64 events, with at most one deviation) and long runs on both sides of 2^8 and 2^9 events. Plus dense sweeps of the continuous parameters over a ratio grid (2^(1/16) steps, thorough 2^(1/32), plus 1 +- 2^-k). Plus twin / bystander runs: a second live object of the same kind used alternately must not change anything. Plus input-wiring variants (raw pointer, dyn Getter, Arc<Mutex>, Arc<RwLock> References; followed command) whose traces must equal the default wiring's bit for bit.",
         "note": "Windows, smoothing constants, values and steps from fixed alphabets; decreasing timestamps are outside the property.",
     },
     "C10": {
@@ -155,7 +155,7 @@ TEXT = {
                 "symbols (4 intervals x 4 values) + N + E1 plus 24/2 (64/3) long histories; after each present sample the "
                 "output must equal trapezoid sums / backward differences applied once or twice, absent until 2 resp. 3 "
                 "samples, stamped with the newest sample, unit = input*s or input/s; to-state converters must panic "
-                "exactly on ill-dimensioned present samples; shift by -1e15/+11/+1e17 ns bit-identical. Plus periodic histories (every primitive word of up to 2-4 symbols (per engine, see evidence bounds) over the core alphabet repeated to 16-64 events, with at most one deviation) and long runs on both sides of 2^8 and 2^9 events. Plus dense sweeps of the continuous parameters over a ratio grid (2^(1/16) steps, thorough 2^(1/32), plus 1 +- 2^-k). Plus twin / bystander runs: a second live object of the same kind used alternately must not change anything.",
+                "exactly on ill-dimensioned present samples; shift by -1e15/+11/+1e17 ns bit-identical. Plus periodic histories (every primitive word of up to 2-4 symbols (per engine, see evidence bounds) over the core alphabet repeated to 16-64 events, with at most one deviation) and long runs on both sides of 2^8 and 2^9 events. Plus dense sweeps of the continuous parameters over a ratio grid (2^(1/16) steps, thorough 2^(1/32), plus 1 +- 2^-k). Plus twin / bystander runs: a second live object of the same kind used alternately must not change anything. Plus input-wiring variants (raw pointer, dyn Getter, Arc<Mutex>, Arc<RwLock> References; followed command) whose traces must equal the default wiring's bit for bit.",
         "note": "Values/intervals from fixed alphabets (1 us .. 1 h); non-uniform spacing and non-linear signals are in the "
                 "alphabet precisely because equal spacing hides rectangle-vs-trapezoid and first-vs-second difference slips.",
     },
@@ -166,7 +166,7 @@ TEXT = {
                 "initial kinds, plus 24/2 (48/3) long histories; after every event (also after set) get() must equal the "
                 "reference: PID on the commanded component with kind-specific gains, output / integral / double integral, "
                 "absent for exactly 0/1/2 samples after start or reset, set(same) no-op, set(different) restarts, N "
-                "resets, E reported until next sample. Bit-exact on the dyadic alphabet. Plus periodic histories (every primitive word of up to 2-4 symbols (per engine, see evidence bounds) over the core alphabet repeated to 16-64 events, with at most one deviation) and long runs on both sides of 2^8 and 2^9 events. Plus dense sweeps of the continuous parameters over a ratio grid (2^(1/16) steps, thorough 2^(1/32), plus 1 +- 2^-k). Plus twin / bystander runs: a second live object of the same kind used alternately must not change anything.",
+                "resets, E reported until next sample. Bit-exact on the dyadic alphabet. Plus periodic histories (every primitive word of up to 2-4 symbols (per engine, see evidence bounds) over the core alphabet repeated to 16-64 events, with at most one deviation) and long runs on both sides of 2^8 and 2^9 events. Plus dense sweeps of the continuous parameters over a ratio grid (2^(1/16) steps, thorough 2^(1/32), plus 1 +- 2^-k). Plus twin / bystander runs: a second live object of the same kind used alternately must not change anything. Plus input-wiring variants (raw pointer, dyn Getter, Arc<Mutex>, Arc<RwLock> References; followed command) whose traces must equal the default wiring's bit for bit.",
         "note": "Two states, two intervals, six commands; gains distinct per kind so that a wrong selection shows.",
     },
     "C04": {
@@ -177,7 +177,7 @@ TEXT = {
                 "last reset, bit-exactly on the dyadic alphabet and within a derived forward-error bound on the broad "
                 "one; 24/2 (64/3) deviation-bounded long histories cover integral accumulation. Shift by -1e15/+7/+1e17 "
                 "ns must be bit-identical, scaling by 2^-3/2^4 exact, and the controller composed from the crate's own "
-                "difference/integral/derivative/product/sum streams must agree. Plus periodic histories (every primitive word of up to 2-4 symbols (per engine, see evidence bounds) over the core alphabet repeated to 16-64 events, with at most one deviation) and long runs on both sides of 2^8 and 2^9 events. Plus dense sweeps of the continuous parameters over a ratio grid (2^(1/16) steps, thorough 2^(1/32), plus 1 +- 2^-k). Plus twin / bystander runs: a second live object of the same kind used alternately must not change anything.",
+                "difference/integral/derivative/product/sum streams must agree. Plus periodic histories (every primitive word of up to 2-4 symbols (per engine, see evidence bounds) over the core alphabet repeated to 16-64 events, with at most one deviation) and long runs on both sides of 2^8 and 2^9 events. Plus dense sweeps of the continuous parameters over a ratio grid (2^(1/16) steps, thorough 2^(1/32), plus 1 +- 2^-k). Plus twin / bystander runs: a second live object of the same kind used alternately must not change anything. Plus input-wiring variants (raw pointer, dyn Getter, Arc<Mutex>, Arc<RwLock> References; followed command) whose traces must equal the default wiring's bit for bit.",
         "note": "Gains, setpoints, values and intervals from fixed alphabets (intervals 1 us .. 1 h). The controller's memory "
                 "is one previous sample plus the integral, so depth >= 3 reaches every distinct stage.",
     },
@@ -208,7 +208,7 @@ TEXT = {
                 "event: no stale error, reset == fresh stream fed the suffix (bit equality), deleting ignored absent "
                 "events changes nothing, get() pure (input poisoned between calls; lazy-get run). Freeze: all 16^d "
                 "condition x input histories against the reference machine. Small-scope complete: the streams keep at "
-                "most three samples of memory, so depth 8 exceeds every distinct internal stage. Plus periodic histories (every primitive word of up to 2-4 symbols (per engine, see evidence bounds) over the core alphabet repeated to 16-64 events, with at most one deviation) and long runs on both sides of 2^8 and 2^9 events. Plus twin / bystander runs: a second live object of the same kind used alternately must not change anything.",
+                "most three samples of memory, so depth 8 exceeds every distinct internal stage. Plus periodic histories (every primitive word of up to 2-4 symbols (per engine, see evidence bounds) over the core alphabet repeated to 16-64 events, with at most one deviation) and long runs on both sides of 2^8 and 2^9 events. Plus twin / bystander runs: a second live object of the same kind used alternately must not change anything. Plus input-wiring variants (raw pointer, dyn Getter, Arc<Mutex>, Arc<RwLock> References; followed command) whose traces must equal the default wiring's bit for bit.",
         "note": "Trusted: harness reset-policy table, scripted inputs. Values from a two-element alphabet, clock +1 s "
                 "per event; numeric correctness is C04/C10/C11/C12's business, not this check's.",
     },
